@@ -109,3 +109,129 @@ def atom_name(rng: random.Random, el: str, used: set) -> str:
             used.add(n)
             return n
     raise RuntimeError('no free atom name')
+
+
+# ================================================================================================
+# C01 (additive): generator over the whole grammar — every instruction keyword in every
+# optional-parameter prefix form (DESIGN.md Appendix A), explicit SFAC entries, several FVAR lines,
+# RESI/PART/AFIX blocks, legal line wrapping. Everything is produced as *text lines*; the checks lex
+# them with their own reader.
+
+SYMM_OPS = ['-X, 1/2+Y, 1/2-Z', '-x, -y, z', 'Y, X, -Z+ 0.50000', '-X+Y, -X, Z', '1/2+X, 1/2-Y, -Z',
+            '-Y, X-Y, Z+1/3', 'x+1/2, -y+1/2, z+0.25', '-X, -Y, 0.5+Z', 'X+1/2,Y+1/2,Z', '-Y,  X,  3/4+Z']
+
+# keyword -> kinds of the leading numeric parameters ('i' integer, 'n' real); every prefix is a form
+NUMERIC_SYNTAX = [
+    ('L.S.', 'iii'), ('CGLS', 'iii'), ('ABIN', 'nn'), ('DAMP', 'ni'), ('FMAP', 'iii'), ('GRID', 'nnnnnn'),
+    ('MERG', 'i'), ('MORE', 'i'), ('MOVE', 'nnni'), ('PLAN', 'inn'), ('PRIG', 'n'), ('SHEL', 'nn'),
+    ('SIZE', 'nnn'), ('SPEC', 'n'), ('STIR', 'nn'), ('SWAT', 'nn'), ('TWST', 'i'), ('WGHT', 'nnnnnn'),
+    ('WIGL', 'nn'), ('WPDB', 'i'), ('XNPD', 'n'), ('DEFS', 'nnnnn'), ('BUMP', 'n'), ('LIST', 'ii'),
+    ('TEMP', 'n'), ('EXTI', 'n'), ('ANSR', 'n'), ('ACTA', 'n'), ('HTAB', 'n'), ('TIME', 'n'), ('OMIT', 'nn'),
+    ('BASF', 'nnnn'), ('SUMP', 'nnnini'), ('ANSC', 'nnnnnn'), ('ANIS', 'i'), ('BIND', 'ii'), ('MOLE', 'i'),
+    ('CONN', 'in'),
+]
+# keyword -> (kinds of optional leading numbers, minimal number of atom names, pairs?)
+ATOMLIST_SYNTAX = [
+    ('DFIX', 'nn', 2, True), ('DANG', 'nn', 2, True), ('SADI', 'n', 4, True), ('SAME', 'nn', 2, False),
+    ('FLAT', 'n', 4, False), ('CHIV', 'nn', 1, False), ('DELU', 'nn', 2, False), ('SIMU', 'nnn', 2, False),
+    ('RIGU', 'nn', 2, False), ('ISOR', 'nn', 1, False), ('NCSY', 'inn', 2, False), ('EADP', '', 2, False),
+    ('EXYZ', '', 2, False), ('ANIS', '', 1, False), ('BIND', '', 2, False), ('BLOC', 'ii', 1, False),
+    ('BOND', '', 1, False), ('CONF', '', 4, False), ('CONN', 'in', 1, False), ('FREE', '', 2, False),
+    ('HFIX', 'i', 1, False), ('HTAB', '', 2, False), ('MPLA', 'i', 3, False), ('RTAB', '', 2, False),
+    ('OMIT', '', 1, False),
+]
+# SHELXL defaults per keyword (a value equal to one of them is never generated)
+_DEFAULTS = {0, 1, 2, 0.7, 15, 53, 20, 0.2, 0.01, 0.1, 0.33333, -0.001, 0.02, 0.04, 0.08, 0.004, 1.9, 170, 12,
+             0.05, 11, 10.08, 17, 90, 180, -2, -1}
+
+
+# number of mandatory leading numeric parameters (a form ends after a mandatory or any optional parameter)
+MIN_PARAMS = {'STIR': 1, 'SIZE': 1, 'ABIN': 1, 'BASF': 1, 'SUMP': 4, 'ANSC': 1, 'DFIX': 1, 'DANG': 1, 'NCSY': 1,
+              'MPLA': 1, 'HFIX': 1, 'BLOC': 2}
+
+
+def rnd_num(rng: random.Random, kind: str, used: set) -> str:
+    """a numeric token, different from every SHELXL default and from the other values of the same line"""
+    for _ in range(200):
+        if kind == 'i':
+            v = rng.choice([3, 4, 5, 6, 7, 8, 9, 13, 14, 16, 18, 19, 21, 23, -3, -4, 1200])
+            t = str(v)
+        else:
+            v = round(rng.uniform(0.011, 0.97) * rng.choice([1, 1, 1, 10, -1, 100]), rng.choice([2, 3, 4, 5]))
+            t = rng.choice(['{}', '{:.5f}', '{:.4f}']).format(v)
+            v = float(t)
+        if v not in _DEFAULTS and v not in used and v != 0:
+            used.add(v)
+            return t
+    raise RuntimeError('no value')
+
+
+def instruction_forms(rng: random.Random, names: List[str]) -> list:
+    """[(keyword, form, text line)] — every keyword in every prefix form, values distinct and non-default.
+    `names` are atom names that exist in the file (restraints refer to them)."""
+    out = []
+    for kw, kinds in NUMERIC_SYNTAX:
+        for k in range(MIN_PARAMS.get(kw, 0), len(kinds) + 1):
+            used = set()
+            toks = [rnd_num(rng, kinds[j], used) for j in range(k)]
+            out.append((kw, f'num{k}', ' '.join([kw] + toks)))
+    out.append(('ACTA', 'nohkl', 'ACTA NOHKL'))
+    out.append(('ACTA', 'num1+nohkl', f'ACTA {rnd_num(rng, "n", set())} NOHKL'))
+    for kw, kinds, natoms, pairs in ATOMLIST_SYNTAX:
+        for k in range(MIN_PARAMS.get(kw, 0) if kinds else 0, len(kinds) + 1):
+            used = set()
+            toks = [rnd_num(rng, kinds[j], used) for j in range(k)]
+            n = natoms + (rng.choice([0, 2, 4]) if names and len(names) >= natoms + 4 else 0)
+            pool = list(names) if len(names) >= n else [f'C{i + 1}' for i in range(n)]
+            at = rng.sample(pool, n)
+            suffix = ''
+            if kw not in ('ANIS', 'BIND', 'BLOC', 'BOND', 'CONF', 'CONN', 'FREE', 'HFIX', 'HTAB', 'MPLA', 'RTAB',
+                          'OMIT') and rng.random() < 0.25:
+                suffix = rng.choice(['_TOL', '_2', '_*'])
+            out.append((kw, f'num{k}+atoms', ' '.join([kw + suffix] + toks + at)))
+    out.append(('CONF', 'atoms+num2', 'CONF ' + ' '.join((names + ['C1', 'C2', 'C3', 'C4'])[:4]) + ' 1.7 155'))
+    out.append(('HFIX', 'mn+U+d', 'HFIX 43 -1.3 0.96 ' + (names[0] if names else 'C1')))
+    out.append(('BOND', '$H', 'BOND $H'))
+    out.append(('OMIT', 'hkl', 'OMIT 3 -4 5'))
+    out.append(('EQIV', 'op', 'EQIV $1 -x+1, y+1/2, -z+3/2'))
+    out.append(('RTAB', 'eqiv', 'RTAB Dist ' + (names[0] if names else 'C1') + ' ' + (names[-1] if names else 'C2') + '_$1'))
+    out.append(('TWIN', 'bare', 'TWIN'))
+    out.append(('TWIN', 'matrix', 'TWIN 0 1 0 1 0 0 0 0 -1'))
+    out.append(('TWIN', 'matrix+n', 'TWIN 0 1 0 1 0 0 0 0 -1 -4'))
+    out.append(('LAUE', 'E', 'LAUE Fe'))
+    out.append(('NEUT', 'bare', 'NEUT'))
+    out.append(('REM', 'text', 'REM R1 is 0.0345 for 1234 data, text  with   blanks'))
+    out.append(('HOPE', 'bare', 'HOPE'))
+    out.append(('SADI', 'bare', 'SADI'))
+    out.append(('TEMP', 'esd', 'TEMP -173.15'))
+    return out
+
+
+def hklf_forms(rng: random.Random) -> list:
+    m = '0 1 0 -1 0 0 0 0 1'
+    return [('HKLF', 'N', 'HKLF 4'), ('HKLF', 'N S', 'HKLF 5 0.5'), ('HKLF', 'N S matrix', f'HKLF 4 0.7 {m}'),
+            ('HKLF', 'N S matrix sm', f'HKLF 4 0.7 {m} 1.5'), ('HKLF', 'N S matrix sm m', f'HKLF 4 0.7 {m} 1.5 3'),
+            ('HKLF', 'bare', 'HKLF')]
+
+
+def wrap_legal(rng: random.Random, line: str, width: int = 79) -> List[str]:
+    """legal SHELXL wrapping: break between two tokens, ' =' ends the physical line, the continuation starts
+    with blanks. Lines longer than `width` are always wrapped; shorter ones sometimes."""
+    toks = line.split()
+    if len(toks) < 4 or line.upper().startswith(('TITL', 'REM')):
+        return [line]
+    if len(line) <= width and rng.random() > 0.15:
+        return [line]
+    out = []
+    cur = toks[0]
+    first = True
+    limit = rng.choice([40, 60, 76]) if len(line) <= width else 76
+    for t in toks[1:]:
+        if len(cur) + 1 + len(t) > limit and not first:
+            out.append(cur + ' =')
+            cur = ' ' * rng.choice([1, 3, 5]) + t
+        else:
+            cur += ' ' * rng.choice([1, 1, 2]) + t
+        first = False
+    out.append(cur)
+    return out
